@@ -965,6 +965,15 @@ class Exec:
                 return recv
             if name == "index" or name == "count":
                 raise Unsupported("list.%s" % name)
+        if isinstance(ty, SetT):
+            if name == "update" and len(args) == 1:
+                self.assign_to(recv_node, V(ty, z3.SetUnion(recv.t, coerce(args[0], ty).t)), st)
+                return NONE_V
+            if name == "add" and len(args) == 1:
+                self.assign_to(recv_node, V(ty, z3.SetAdd(recv.t, coerce(args[0], ty.elem).t)), st)
+                return NONE_V
+            if name in ("union",) and len(args) == 1:
+                return V(ty, z3.SetUnion(recv.t, coerce(args[0], ty).t))
         if isinstance(ty, DictT):
             has, get = ty.fn("has"), ty.fn("get")
             if name == "get":
